@@ -4,13 +4,105 @@ Model: Model/Conn.lean.  Proved here (for EVERY state, hence at every point of e
 each way an operation can complete releases its message ID and its routing entry in the same
 driver step — response delivered, SearchResultDone routed (fix F8), scrub after a timeout or an
 early finish(), Abandon (fix F9: the abandoned ID too), and a request whose scrub overtook it is
-never registered (fix F15).  The whole-history statement `C13_quiescent` (quiescent ⇒ table and
-both maps empty) is checked on every run by lane `leaks` against the real ID table and map gauges
-and, on the model, by the random-walk explorer; its proof by invariant is work in progress and is
-NOT claimed here.
+never registered (fix F15); an operation that fails because the connection is gone gives its ID
+back, and the table is cleared when the driver ends (fix F22).
+
+Whole histories: `C13_quiescent` — in EVERY state reachable from the initial one by ANY sequence of
+events (client calls of every kind, driver steps, server frames, closes, garbage, clock ticks, in
+any interleaving) in which no operation is outstanding, the ID table and both routing maps are
+empty.  It rests on the accounting invariant `Acct` (Lemmas/ConnAcct*.lean), which is proved to be
+preserved by every event.  The single hypothesis is `FreshRun`: an ID handed out is not the ID of a
+request that is at that moment still waiting in the driver's queue — which can only fail after a
+full wrap of the 2^31-1 ID space while that request waits (finding F13, see DESIGN.md).
+`C13_quiescent_nowrap` discharges it for every history with fewer allocations than there are IDs.
 -/
-import Ldap3V.Lemmas.ConnSteps
+import Ldap3V.Lemmas.ConnNoWrap
 namespace Ldap3V.Conn
+
+/-- the stream of a started search is over from its caller's point of view: it has been handed the
+final result (so that result was routed), or it called `finish()`/`abandon` before the end (which
+asks for a scrub), or one of its `next()` calls timed out (which asks for a scrub) -/
+def StreamOver (ch : Chan) : Prop := (∃ f, Item.done f ∈ ch.items) ∨ ch.finScrub = true ∨ ch.timedOut = true
+
+/-- no operation is outstanding, and the driver has caught up with what it was asked to do -/
+structure Quiescent (s : St) : Prop where
+  /-- every call has returned to its caller (with a result, an error or a timeout) -/
+  returned : ∀ (i : Nat) (o : Op), s.ops[i]? = some o → o.res ≠ none
+  /-- every search that was started has been read to the end, finished or has timed out -/
+  streams : ∀ (c : Nat) (ch : Chan) (o : Op), s.chans[c]? = some ch → s.ops[ch.opIdx]? = some o → o.res = some .ack →
+    StreamOver ch
+  /-- a live driver has emptied its request and scrub queues -/
+  caughtUp : s.drv = .running → s.opQ = [] ∧ s.scrubQ = []
+
+/-- The state-level core: accounting invariant + quiescent ⇒ nothing is left, except that the ID of
+an Unbind (after which the connection is closed by definition) is never given back. -/
+theorem C13_quiescent_state (s : St) (h : Acct s) (q : Quiescent s) :
+    s.resultmap = [] ∧ s.searchmap = [] ∧
+    ∀ k ∈ s.inUse, ∃ (i : Nat) (o : Op), s.ops[i]? = some o ∧ o.id = k ∧ o.kind = .unbind := by
+  have hq : s.opQ = [] := by
+    by_cases hr : s.drv = .running
+    · exact (q.caughtUp hr).1
+    · exact (h.dead hr).2.2
+  have hsq : s.drv = .running → s.scrubQ = [] := fun hr => (q.caughtUp hr).2
+  have hrm : s.resultmap = [] := by
+    by_cases hr : s.drv = .running
+    · cases hm : s.resultmap with
+      | nil => rfl
+      | cons p rest =>
+        exfalso
+        obtain ⟨o, ho, _, _, _, hres⟩ := h.rmOk p (by rw [hm]; simp)
+        rcases hres with r | ⟨_, r⟩
+        · exact q.returned _ o ho r
+        · rw [hsq hr] at r; cases r
+    · exact (h.dead hr).1
+  have hsm : s.searchmap = [] := by
+    by_cases hr : s.drv = .running
+    · cases hm : s.searchmap with
+      | nil => rfl
+      | cons p rest =>
+        exfalso
+        obtain ⟨ch, o, hc, ho, _, _, _, _, hnd, himp, hres⟩ := h.smOk p (by rw [hm]; simp)
+        have hnot : ¬ (ch.finScrub = true ∨ ch.timedOut = true ∨ o.res = some .timeout) := by
+          intro hh; have := himp hh; rw [hsq hr] at this; cases this
+        have hack : o.res = some .ack := by
+          rcases hres with r | r | r
+          · exact absurd r (q.returned _ o ho)
+          · exact r
+          · exact absurd (Or.inr (Or.inr r)) hnot
+        rcases q.streams p.2 ch o hc ho hack with ⟨f, hf⟩ | hf | hf
+        · exact hnd f hf
+        · exact hnot (Or.inl hf)
+        · exact hnot (Or.inr (Or.inl hf))
+    · exact (h.dead hr).2.1
+  refine ⟨hrm, hsm, ?_⟩
+  intro k hk
+  obtain ⟨i, o, ho, hid, hreg⟩ := h.acct k hk
+  rcases hreg with r | r | r | ⟨c, _, r⟩ | r
+  · exfalso
+    have := (h.fresh i o ho (by rw [r]; simp)).2
+    rcases this with e | ⟨_, e⟩
+    · exact q.returned i o ho e
+    · rw [r] at e; cases e
+  · rw [hq] at r; cases r
+  · rw [hrm] at r; cases r
+  · rw [hsm] at r; cases r
+  · exact ⟨i, o, ho, hid, r.1⟩
+
+/-- **C13, whole histories.**  After any history from a fresh connection, at any point where no
+operation is outstanding, no message ID is reserved and the connection holds no routing state
+(the connection not having been closed by an Unbind). -/
+theorem C13_quiescent (N : Nat) (evs : List Ev) (hf : FreshRun (init N) evs)
+    (q : Quiescent (run (init N) evs))
+    (hnu : ∀ (i : Nat) (o : Op), (run (init N) evs).ops[i]? = some o → o.kind ≠ .unbind) :
+    (run (init N) evs).inUse = [] ∧ (run (init N) evs).resultmap = [] ∧ (run (init N) evs).searchmap = [] := by
+  obtain ⟨h1, h2, h3⟩ := C13_quiescent_state _ (Acct.run N evs hf) q
+  refine ⟨?_, h1, h2⟩
+  cases hm : (run (init N) evs).inUse with
+  | nil => rfl
+  | cons k rest =>
+    exfalso
+    obtain ⟨i, o, ho, _, hk⟩ := h3 k (by rw [hm]; simp)
+    exact hnu i o ho hk
 
 /-- a response routed to a single-result operation releases the ID and the routing entry -/
 theorem C13_response_releases (s : St) (f : Frame) (i : Nat) (hr : s.drv = .running)
@@ -80,6 +172,34 @@ theorem C13_scrubbed_request_not_registered (s : St) (i : Nat) (rest : List Nat)
   simp only [step, hne, if_false, hq, ho, hin, Bool.not_false, if_true]
   exact ⟨_, rfl, rfl, rfl, rfl, rfl⟩
 
+/-- **C13 for every history that does not exhaust the ID space** (at most `N` = 2^31-1 operations
+on the connection): no hypothesis on the schedule at all. -/
+theorem C13_quiescent_nowrap (N : Nat) (evs : List Ev) (hcount : allocCount evs ≤ N)
+    (q : Quiescent (run (init N) evs))
+    (hnu : ∀ (i : Nat) (o : Op), (run (init N) evs).ops[i]? = some o → o.kind ≠ .unbind) :
+    (run (init N) evs).inUse = [] ∧ (run (init N) evs).resultmap = [] ∧ (run (init N) evs).searchmap = [] :=
+  C13_quiescent N evs (freshRun_init N evs hcount) q hnu
+
+/-- on a connection whose driver has ended nothing is held either, outstanding operations or not,
+beyond the IDs of calls that are at this moment between allocation and queueing (fix F22) -/
+theorem C13_dead_holds_nothing (N : Nat) (evs : List Ev) (hf : FreshRun (init N) evs)
+    (hd : (run (init N) evs).drv ≠ .running) :
+    (run (init N) evs).resultmap = [] ∧ (run (init N) evs).searchmap = [] ∧
+    ∀ k ∈ (run (init N) evs).inUse, ∃ (i : Nat) (o : Op), (run (init N) evs).ops[i]? = some o ∧ o.id = k ∧
+      (o.phase = .allocated ∨ o.kind = .unbind) := by
+  have h := Acct.run N evs hf
+  obtain ⟨h1, h2, h3⟩ := h.dead hd
+  refine ⟨h1, h2, ?_⟩
+  intro k hk
+  obtain ⟨i, o, ho, hid, hreg⟩ := h.acct k hk
+  refine ⟨i, o, ho, hid, ?_⟩
+  rcases hreg with r | r | r | ⟨c, _, r⟩ | r
+  · exact Or.inl r
+  · rw [h3] at r; cases r
+  · rw [h1] at r; cases r
+  · rw [h2] at r; cases r
+  · exact Or.inr r.1
+
 /-! ### non-vacuity (tests): a mixed history that ends quiescent with everything released -/
 example :
     let s := run (init 100) [.alloc .single, .enqueue 0 none, .alloc .search, .enqueue 1 none, .alloc .single,
@@ -88,5 +208,57 @@ example :
       .alloc (.abandon 9), .enqueue 3 none, .drvOp true]
     s.inUse = [] ∧ s.resultmap = [] ∧ s.searchmap = [] := by
   decide
+
+/-- the hypotheses of `C13_quiescent_nowrap` are met by a mixed history (a response, a search read
+to the end and finished, a timeout with its scrub, an abandon, an unsolicited frame) -/
+def sampleHistory : List Ev :=
+  [.alloc .single, .enqueue 0 none, .alloc .search, .enqueue 1 none, .alloc .single,
+   .enqueue 2 (some 5), .drvOp true, .drvOp true, .drvOp true, .srvSend ⟨1, 11, 7, true⟩, .drvResp, .poll 0,
+   .srvSend ⟨2, 4, 8, false⟩, .srvSend ⟨2, 5, 9, true⟩, .srvSend ⟨77, 11, 10, true⟩, .drvResp, .drvResp, .drvResp,
+   .poll 1, .recv 0 none, .recv 0 none, .finish 0 false, .tick 5, .poll 2, .drvScrub,
+   .alloc (.abandon 9), .enqueue 3 none, .drvOp true, .poll 3]
+
+example : allocCount sampleHistory ≤ 100 := by decide
+
+/-- a decidable form of `Quiescent`, to exhibit states that meet it -/
+def quiescentB (s : St) : Bool :=
+  s.ops.all (fun o => o.res.isSome) &&
+  (s.chans.all fun ch => match s.ops[ch.opIdx]? with
+    | some o => o.res != some .ack || (ch.items.any (fun it => match it with | .done _ => true | _ => false) || ch.finScrub || ch.timedOut)
+    | none => true) &&
+  (s.drv != .running || (s.opQ.isEmpty && s.scrubQ.isEmpty))
+
+theorem quiescent_of_B (s : St) (h : quiescentB s = true) : Quiescent s := by
+  simp only [quiescentB, Bool.and_eq_true, List.all_eq_true] at h
+  obtain ⟨⟨h1, h2⟩, h3⟩ := h
+  refine ⟨?_, ?_, ?_⟩
+  · intro i o ho hn
+    have := h1 o (List.mem_of_getElem? ho)
+    rw [hn] at this; cases this
+  · intro c ch o hc ho hack
+    have := h2 ch (List.mem_of_getElem? hc)
+    rw [ho] at this
+    simp only [hack, bne_self_eq_false, Bool.false_or, Bool.or_eq_true, List.any_eq_true] at this
+    rcases this with (⟨it, hit, hd⟩ | hf) | ht
+    · cases it with
+      | entry f => cases hd
+      | done f => exact Or.inl ⟨f, hit⟩
+    · exact Or.inr (Or.inl hf)
+    · exact Or.inr (Or.inr ht)
+  · intro hr
+    simp only [hr, bne_self_eq_false, Bool.false_or, Bool.and_eq_true, List.isEmpty_iff] at h3
+    exact h3
+
+example : Quiescent (run (init 100) sampleHistory) := quiescent_of_B _ (by decide)
+
+example : ∀ (i : Nat) (o : Op), (run (init 100) sampleHistory).ops[i]? = some o → o.kind ≠ .unbind := by
+  intro i o ho
+  have : o ∈ (run (init 100) sampleHistory).ops := List.mem_of_getElem? ho
+  have hall : ((run (init 100) sampleHistory).ops.all fun o => o.kind != .unbind) = true := by decide
+  have := List.all_eq_true.mp hall o this
+  simpa using this
+
+example : (run (init 100) sampleHistory).ops.map (·.res) =
+    [some (.frame ⟨1, 11, 7, true⟩), some .ack, some .timeout, some .ack] := by decide
 
 end Ldap3V.Conn
